@@ -1,6 +1,487 @@
-//! C15 — not built yet.
+//! C15 — channel state is discarded only when safely buried; channel ids are never reused.
+//!
+//! A real persisting `Node` (KVVPersister<MemoryKVVStore>), channels created with `new_channel(dbid)`,
+//! made ready with `setup_channel`, forgotten with `forget_channel`, pruned by `get_heartbeat`;
+//! blocks are connected/disconnected as the protocol handler does (tracker call + `update_tracker`);
+//! `restart` drops the node and restores it with `Node::restore_node`.
+//! Per channel d ∈ 1..4 the pool has: funding F_d, double-spend D_d, mutual close M_d, holder
+//! commitment U_d (our output only, built with the channel's keys) and its sweep S_d.
+//! Model: `prune`.  Monitor (ghost ledger over the harness' own copy of the chain): a ready channel
+//! disappears only in a heartbeat, after `forget_channel` was acknowledged and a double-spend / mutual
+//! close / fully swept unilateral close is buried ≥ 100 blocks on the surviving chain; after a forget
+//! of an existing channel d no `new_channel(d' ≤ d)` creates a channel, also after restarts.
+use super::c14::world::{coinbase, mk_tx, panic_msg};
 use crate::common::*;
+use lightning_signer::bitcoin::bip32::DerivationPath;
+use lightning_signer::bitcoin::{Block, Network, OutPoint, Transaction, Txid};
+use lightning_signer::channel::{ChannelBase, ChannelId, ChannelSlot};
+use lightning_signer::node::{Node, NodeConfig, NodeServices};
+use lightning_signer::persist::Persist;
+use lightning_signer::policy::simple_validator::SimpleValidatorFactory;
+use lightning_signer::signer::derive::KeyDerivationStyle;
+use lightning_signer::txoo::proof::TxoProof;
+use lightning_signer::util::clock::ManualClock;
+use lightning_signer::util::test_utils::*;
+use std::collections::{BTreeMap, BTreeSet, HashMap};
+use std::panic::{catch_unwind, AssertUnwindSafe};
+use std::sync::{Arc, OnceLock};
+use std::time::Duration;
+use vls_persist::kvv::memory::MemoryKVVStore;
+use vls_persist::kvv::{JsonFormat, KVVPersister};
+
+const MIN_DEPTH_SPEC: usize = 100; // "the required number of blocks"
+const PEER: [u8; 33] = [2u8; 33];
+const NCH: u64 = 4;
+
+fn fid(d: u64) -> u64 { 10 * d + 1 }
+fn did(d: u64) -> u64 { 10 * d + 2 }
+fn mid(d: u64) -> u64 { 10 * d + 3 }
+fn uid(d: u64) -> u64 { 10 * d + 4 }
+fn sid(d: u64) -> u64 { 10 * d + 5 }
+
+fn funding_tx(d: u64) -> Transaction {
+    mk_tx(vec![make_outpoint(10 * d as u32 + 1), make_outpoint(10 * d as u32 + 2)], 1, 200 + d as u32)
+}
+
+fn services(persister: Arc<dyn Persist>) -> NodeServices {
+    NodeServices {
+        validator_factory: Arc::new(SimpleValidatorFactory::new()),
+        starting_time_factory: make_genesis_starting_time_factory(Network::Testnet),
+        persister,
+        clock: Arc::new(ManualClock::new(Duration::from_secs(1_700_000_000))),
+        trusted_oracle_pubkeys: vec![],
+    }
+}
+
+struct W15 {
+    persister: Arc<dyn Persist>,
+    node: Arc<Node>,
+    seed: [u8; 32],
+    txs: BTreeMap<u64, Transaction>,
+    ids: HashMap<Txid, u64>,
+    kinds: BTreeMap<u64, String>,
+    blocks: Vec<Block>,
+    chain: Vec<Vec<u64>>,
+    cb: u32,
+}
+
+fn chan_id(d: u64) -> ChannelId {
+    ChannelId::new_from_peer_id_and_oid(&PEER, d)
+}
+
+impl W15 {
+    fn new() -> W15 {
+        let persister: Arc<dyn Persist> = Arc::new(KVVPersister(MemoryKVVStore::new([7u8; 16]), JsonFormat));
+        let mut seed = [0u8; 32];
+        seed.copy_from_slice(&hex::decode(TEST_SEED[1]).unwrap());
+        let config = NodeConfig { network: Network::Testnet, key_derivation_style: KeyDerivationStyle::Native, use_checkpoints: false, allow_deep_reorgs: true };
+        let node = Arc::new(Node::new(config, &seed, vec![], services(persister.clone())));
+        persister.new_node(&node.get_id(), &config, &*node.get_state()).unwrap();
+        persister.new_tracker(&node.get_id(), &node.get_tracker()).unwrap();
+        node.add_allowlist(&[]).unwrap();
+        let mut w = W15 { persister, node, seed, txs: BTreeMap::new(), ids: HashMap::new(), kinds: BTreeMap::new(), blocks: vec![], chain: vec![], cb: 0 };
+        w.ids.insert(lightning_signer::bitcoin::hashes::Hash::all_zeros(), 0);
+        for d in 1..=NCH {
+            let f = funding_tx(d);
+            let fo = OutPoint::new(f.compute_txid(), 0);
+            w.put(fid(d), f);
+            w.put(did(d), mk_tx(vec![make_outpoint(10 * d as u32 + 2)], 1, 210 + d as u32));
+            w.put(mid(d), mk_tx(vec![fo], 2, 220 + d as u32));
+        }
+        // three blocks first: restore_node fast-forwards a tracker at height 0 to the checkpoint
+        // (regtest-difficulty headers as in the repo's `init_channel`; later blocks inherit these bits)
+        {
+            let mut tracker = w.node.get_tracker();
+            for _ in 0..3 {
+                let (header, proof) = make_testnet_header(tracker.tip(), tracker.height());
+                tracker.add_block(header, proof).unwrap();
+            }
+            w.persister.update_tracker(&w.node.get_id(), &tracker).unwrap();
+        }
+        w
+    }
+
+    fn put(&mut self, id: u64, t: Transaction) {
+        self.ids.insert(t.compute_txid(), id);
+        self.txs.insert(id, t);
+    }
+
+    fn token(&self, id: u64) -> String {
+        let t = &self.txs[&id];
+        let ins: Vec<String> = t.input.iter().map(|i| format!("{}.{}", self.ids.get(&i.previous_output.txid).cloned().unwrap_or(999), i.previous_output.vout)).collect();
+        format!("T{}:{}:{}:{}", id, ins.join(";"), t.output.len(), self.kinds.get(&id).cloned().unwrap_or("p".into()))
+    }
+
+    fn new_channel(&self, d: u64) -> Result<(), String> {
+        self.node.new_channel(d, &PEER, &self.node).map(|_| ()).map_err(|e| e.message().to_string())
+    }
+
+    /// setup_channel + what sign_onchain_tx does for the funding inputs + the commitment/sweep of this channel
+    fn setup(&mut self, d: u64) -> Result<(), String> {
+        let f = funding_tx(d);
+        let fo = OutPoint::new(f.compute_txid(), 0);
+        let mut setup = make_test_channel_setup();
+        setup.funding_outpoint = fo;
+        let id = chan_id(d);
+        let was_ready = matches!(self.node.get_channel(&id).ok().map(|s| matches!(&*s.lock().unwrap(), ChannelSlot::Ready(_))), Some(true));
+        self.node.setup_channel(id.clone(), None, setup.clone(), &DerivationPath::master()).map_err(|e| e.message().to_string())?;
+        if was_ready {
+            return Ok(());
+        }
+        self.node.with_channel(&id, |chan| {
+            chan.monitor.add_funding_inputs(&f);
+            Ok(())
+        }).unwrap();
+        {
+            let mut tracker = self.node.get_tracker();
+            tracker.add_listener_watches(&fo, f.input.iter().map(|i| i.previous_output).collect());
+            self.persister.update_tracker(&self.node.get_id(), &tracker).unwrap();
+        }
+        if !self.txs.contains_key(&uid(d)) {
+            let commit_num = 7u64;
+            let (to_holder, to_cp, feerate) = (1_000_000u64 + d, 1_990_000u64, 1000u32);
+            self.node.with_channel(&id, |chan| {
+                chan.set_next_holder_commit_num_for_testing(commit_num);
+                let p = chan.get_per_commitment_point(commit_num)?;
+                chan.set_next_counterparty_commit_num_for_testing(commit_num + 1, p);
+                Ok(())
+            }).unwrap();
+            let secp_ctx = lightning_signer::bitcoin::secp256k1::Secp256k1::signing_only();
+            let node_ctx = TestNodeContext { node: self.node.clone(), secp_ctx };
+            let counterparty_keys = make_test_counterparty_keys(&node_ctx, &id, setup.channel_value_sat);
+            let chan_ctx = TestChannelContext { channel_id: id.clone(), setup: setup.clone(), counterparty_keys };
+            let commit = channel_commitment(&node_ctx, &chan_ctx, commit_num, feerate, to_holder, to_cp, vec![], vec![]).tx.unwrap();
+            let u = commit.trust().built_transaction().transaction.clone();
+            let our = u.output.iter().position(|o| o.value.to_sat() == to_holder).unwrap() as u32;
+            self.kinds.insert(uid(d), format!("c{}/-", our));
+            let s = mk_tx(vec![OutPoint::new(u.compute_txid(), our)], 1, 230 + d as u32);
+            self.put(uid(d), u);
+            self.put(sid(d), s);
+        }
+        Ok(())
+    }
+
+    fn add_block(&mut self, ids: &[u64]) -> String {
+        self.cb += 1;
+        let mut txs = vec![coinbase(self.cb)];
+        txs.extend(ids.iter().map(|i| self.txs.get(i).expect("pool id").clone()));
+        let node = self.node.clone();
+        let mut tracker = node.get_tracker();
+        let tip = tracker.tip().clone();
+        let block = make_block(tip.0, txs);
+        let proof = TxoProof::prove_unchecked(&block, &tip.1, tracker.height() + 1);
+        match catch_unwind(AssertUnwindSafe(|| tracker.add_block(block.header, proof))) {
+            Err(e) => format!("panic {}", panic_msg(e)),
+            Ok(Err(e)) => format!("err {:?}", e),
+            Ok(Ok(())) => {
+                self.persister.update_tracker(&node.get_id(), &tracker).unwrap();
+                self.blocks.push(block);
+                self.chain.push(ids.to_vec());
+                "ok".into()
+            }
+        }
+    }
+
+    fn remove_block(&mut self) -> String {
+        let block = self.blocks.last().expect("malformed case: nothing to remove").clone();
+        let node = self.node.clone();
+        let mut tracker = node.get_tracker();
+        let prev = tracker.headers()[0].clone();
+        let proof = TxoProof::prove_unchecked(&block, &prev.1, tracker.height());
+        match catch_unwind(AssertUnwindSafe(|| tracker.remove_block(proof, prev))) {
+            Err(e) => format!("panic {}", panic_msg(e)),
+            Ok(Err(e)) => format!("err {:?}", e),
+            Ok(Ok(_)) => {
+                self.persister.update_tracker(&node.get_id(), &tracker).unwrap();
+                self.blocks.pop();
+                self.chain.pop();
+                "ok".into()
+            }
+        }
+    }
+
+    fn restart(&mut self) {
+        let (node_id, entry) = self.persister.get_nodes().unwrap().into_iter().next().unwrap();
+        let node = Node::restore_node(&node_id, entry, &self.seed, services(self.persister.clone())).unwrap();
+        self.node = node;
+    }
+
+    fn dbid_of(&self, id: &ChannelId) -> u64 { id.oid() }
+
+    fn digest(&self) -> String {
+        let mut ch = Vec::new();
+        for (id, slot) in self.node.get_channels().iter() {
+            let s = slot.lock().unwrap();
+            let d = self.dbid_of(id);
+            ch.push(match &*s {
+                ChannelSlot::Stub(st) => format!("{}:s{}", d, st.blockheight),
+                ChannelSlot::Ready(_) => format!("{}:r{}", d, d),
+            });
+        }
+        let hwm = self.node.get_state().dbid_high_water_mark;
+        let tracker = self.node.get_tracker();
+        let mut ls = Vec::new();
+        let mut keys: Vec<(u64, OutPoint)> = tracker.listeners.keys().map(|k| (self.ids.get(&k.txid).cloned().unwrap_or(999) / 10, *k)).collect();
+        keys.sort();
+        for (d, k) in keys {
+            let (m, _) = tracker.listeners.get(&k).unwrap();
+            let st = serde_json::to_value(&*m.get_state()).unwrap();
+            let on = |v: &serde_json::Value| if v.is_null() { "-".to_string() } else { v.to_string() };
+            ls.push(format!(
+                "{}:h{}:sf{}:ds{}:mc{}:uc{}:csh{}:done{}",
+                d, st["height"], st["saw_forget_channel"].as_bool().unwrap() as u8, on(&st["funding_double_spent_height"]),
+                on(&st["mutual_closing_height"]), on(&st["unilateral_closing_height"]), on(&st["closing_swept_height"]), m.is_done() as u8
+            ));
+        }
+        let h = tracker.height();
+        drop(tracker);
+        let node_id = self.node.get_id();
+        let mut sch: Vec<(u64, String)> = self.persister.get_node_channels(&node_id).unwrap().into_iter().map(|(id, e)| {
+            let d = id.oid();
+            (d, if e.channel_setup.is_some() { format!("{}:r{}", d, d) } else { format!("{}:s{}", d, e.blockheight.map(|b| b.to_string()).unwrap_or("?".into())) })
+        }).collect();
+        sch.sort();
+        let shwm = self.persister.get_nodes().unwrap().into_iter().next().unwrap().1.state.dbid_high_water_mark;
+        format!("ch=[{}] hwm={} h={} L=[{}] st:ch=[{}] hwm={}", ch.join(","), hwm, h, ls.join(";"),
+                sch.into_iter().map(|x| x.1).collect::<Vec<_>>().join(","), shwm)
+    }
+
+    fn ready_set(&self) -> BTreeSet<u64> {
+        self.node.get_channels().iter().filter(|(_, s)| matches!(&*s.lock().unwrap(), ChannelSlot::Ready(_))).map(|(id, _)| id.oid()).collect()
+    }
+    fn has_channel(&self, d: u64) -> bool {
+        self.node.get_channels().contains_key(&chan_id(d))
+    }
+
+    /// ghost: is a terminal event of channel d buried ≥ MIN_DEPTH on the surviving chain?
+    fn buried(&self, d: u64) -> bool {
+        let n = self.chain.len();
+        let depth = |id: u64| self.chain.iter().position(|b| b.contains(&id)).map(|i| n - i);
+        let deep = |x: Option<usize>| x.map(|k| k >= MIN_DEPTH_SPEC).unwrap_or(false);
+        // unilateral close fully swept: U_d confirmed and S_d confirmed; the later of the two counts
+        let swept = match (depth(uid(d)), depth(sid(d))) { (Some(a), Some(b)) => Some(a.min(b)), _ => None };
+        deep(depth(did(d))) || deep(depth(mid(d))) || deep(swept)
+    }
+}
+
+static TOKENS: OnceLock<BTreeMap<u64, String>> = OnceLock::new();
+fn tokens() -> &'static BTreeMap<u64, String> {
+    TOKENS.get_or_init(|| {
+        let mut w = W15::new();
+        for d in 1..=NCH {
+            w.new_channel(d).unwrap();
+            w.setup(d).unwrap();
+        }
+        w.txs.keys().map(|k| (*k, w.token(*k))).collect()
+    })
+}
+fn tok(id: u64) -> String { tokens()[&id].clone() }
+
+pub struct C15;
+
+impl Group for C15 {
+    fn property(&self) -> &'static str { "C15" }
+    fn model(&self) -> Option<&'static str> { Some("prune") }
+    fn rule(&self) -> &'static str {
+        "real persisting Node, dbids 1..4 (+ ids around the high-water mark), interleavings of new_channel / setup_channel / \
+         forget_channel / get_heartbeat / restart with consensus-valid blocks containing the channels' funding, double-spend, \
+         mutual close, unilateral close and sweep, runs of 90..110 empty blocks around MIN_DEPTH=100, reorgs of depth 1-3; \
+         non-trivial = a forget of an existing channel followed by a new_channel attempt or a heartbeat at depth >= 95"
+    }
+    fn budget(&self, tier: Tier) -> usize { if tier == Tier::Quick { 400 } else { 8000 } }
+    fn corpus(&self) -> Vec<Vec<String>> {
+        let mk = |s: &str| -> Vec<String> {
+            s.split('|').map(|x| {
+                let t: Vec<&str> = x.split_whitespace().collect();
+                if t[0] == "add" { let mut l = "add".to_string(); for id in &t[1..] { l.push(' '); l.push_str(&tok(id.parse().unwrap())); } l } else { x.to_string() }
+            }).collect()
+        };
+        vec![
+            // forget, restart, id reuse attempts
+            mk("init|new 2|new 3|forget 3|restart|new 3|new 2|new 1|new 4|heartbeat"),
+            // mutual close buried exactly 99 / 100 deep
+            mk("init|new 1|setup 1|add 11|add 13|forget 1|addn 98|heartbeat|addn 1|heartbeat|restart|new 1"),
+            // not forgotten: survives; forget flag and restart
+            mk("init|new 1|setup 1|add 11|add 13|addn 120|heartbeat|restart|heartbeat|forget 1|restart|heartbeat"),
+            // unilateral close, swept later; double spend on another channel
+            mk("init|new 1|new 2|setup 1|setup 2|add 11 22|add 14|forget 1|forget 2|addn 50|add 15|addn 60|heartbeat|addn 45|heartbeat"),
+        ]
+    }
+    fn gen_case(&self, rng: &mut Rng, tier: Tier) -> Vec<String> {
+        let mut ops = vec!["init".to_string()];
+        let mut conf: Vec<Vec<u64>> = Vec::new();
+        let mut ready: BTreeSet<u64> = BTreeSet::new();
+        let mut exists: BTreeSet<u64> = BTreeSet::new();
+        let steps = rng.range(5, if tier == Tier::Quick { 14 } else { 24 });
+        let mut long_runs = 0;
+        for _ in 0..steps {
+            let d = rng.range(1, NCH);
+            match rng.below(16) {
+                0 | 1 => { ops.push(format!("new {}", d)); exists.insert(d); }
+                2 | 3 => {
+                    if !exists.contains(&d) { ops.push(format!("new {}", d)); exists.insert(d); }
+                    ops.push(format!("setup {}", d));
+                    ready.insert(d);
+                }
+                4 | 5 => { ops.push(format!("forget {}", d)); if !ready.contains(&d) { exists.remove(&d); } }
+                6 | 7 => ops.push("heartbeat".into()),
+                8 => ops.push("restart".into()),
+                9 | 10 | 11 => {
+                    // a block with channel transactions
+                    let flat: Vec<u64> = conf.iter().flatten().cloned().collect();
+                    let has = |x: u64| flat.contains(&x);
+                    let mut blk: Vec<u64> = Vec::new();
+                    for c in ready.iter().cloned() {
+                        let inb = |b: &Vec<u64>, x: u64| b.contains(&x);
+                        let mut cand = Vec::new();
+                        if !has(fid(c)) && !has(did(c)) && !inb(&blk, did(c)) { cand.push(fid(c)); }
+                        if !has(fid(c)) && !has(did(c)) && !inb(&blk, fid(c)) { cand.push(did(c)); }
+                        if (has(fid(c)) || inb(&blk, fid(c))) && !has(mid(c)) && !has(uid(c)) { cand.push(if rng.chance(1, 2) { mid(c) } else { uid(c) }); }
+                        if (has(uid(c)) || inb(&blk, uid(c))) && !has(sid(c)) { cand.push(sid(c)); }
+                        for x in cand { if rng.chance(1, 2) && !blk.contains(&x) && !(x == did(c) && blk.contains(&fid(c))) { blk.push(x); } }
+                    }
+                    let mut l = "add".to_string();
+                    for x in &blk { l.push(' '); l.push_str(&tok(*x)); }
+                    ops.push(l);
+                    conf.push(blk);
+                }
+                12 | 13 => {
+                    if long_runs < 2 {
+                        long_runs += 1;
+                        let k = *rng.pick(&[90u64, 98, 99, 100, 101, 110]);
+                        ops.push(format!("addn {}", k));
+                        for _ in 0..k { conf.push(vec![]); }
+                    } else {
+                        ops.push("addn 3".into());
+                        for _ in 0..3 { conf.push(vec![]); }
+                    }
+                }
+                _ => {
+                    let k = rng.range(1, 3).min(conf.len() as u64);
+                    for _ in 0..k {
+                        let blk = conf.pop().unwrap();
+                        let mut l = "remove".to_string();
+                        for x in &blk { l.push(' '); l.push_str(&tok(*x)); }
+                        ops.push(l);
+                    }
+                }
+            }
+            // probes right after a forget
+            if ops.last().map(|l| l.starts_with("forget")).unwrap_or(false) {
+                if rng.chance(1, 2) { ops.push("restart".into()); }
+                ops.push(format!("new {}", rng.range(1, NCH + 1)));
+            }
+        }
+        ops.push("heartbeat".into());
+        ops
+    }
+    fn model_line(&self, op: &str) -> Option<String> {
+        let t: Vec<&str> = op.split_whitespace().collect();
+        Some(match t.as_slice() {
+            ["init"] => "init 3 0".to_string(),
+            ["setup", d] => {
+                let d: u64 = d.parse().unwrap();
+                format!("setup {} {} {} 0 0.{};0.{}", d, d, fid(d), 10 * d + 1, 10 * d + 2)
+            }
+            _ => op.to_string(),
+        })
+    }
+    fn exec_case(&self, ops: &[String]) -> CaseOut {
+        let mut co = CaseOut::default();
+        let mut w: Option<W15> = None;
+        let mut dead = false;
+        let mut forgot_req: BTreeSet<u64> = BTreeSet::new(); // forget acknowledged for a ready channel
+        let mut forgotten_max: u64 = 0; // highest id of an existing channel that was forgotten
+        let mut interesting = false;
+        for (i, op) in ops.iter().enumerate() {
+            if dead { co.out.push("dead".into()); continue; }
+            let t: Vec<&str> = op.split_whitespace().collect();
+            if t[0] == "init" {
+                w = Some(W15::new());
+                co.out.push(format!("ok {}", w.as_ref().unwrap().digest()));
+                continue;
+            }
+            let wd = w.as_mut().expect("init first");
+            let ready_before = wd.ready_set();
+            let res: String = match t.as_slice() {
+                ["new", d] => {
+                    let d: u64 = d.parse().unwrap();
+                    let existed = wd.has_channel(d);
+                    let r = wd.new_channel(d);
+                    if forgotten_max > 0 { interesting = true; }
+                    if r.is_ok() && !existed && d <= forgotten_max {
+                        co.violations.push(Violation { kind: "channel-id-reuse".into(),
+                            desc: format!("new_channel({}) created a channel although channel {} was forgotten before", d, forgotten_max), at: i });
+                    }
+                    co.tags.insert(format!("new:{}", if r.is_ok() { if existed { "existing" } else { "created" } } else { "refused" }));
+                    if r.is_ok() { "ok".into() } else { "err".into() }
+                }
+                ["setup", d] => {
+                    let d: u64 = d.parse().unwrap();
+                    match wd.setup(d) { Ok(()) => { co.tags.insert("setup:ok".into()); "ok".into() } Err(_) => { co.tags.insert("setup:err".into()); "err".into() } }
+                }
+                ["forget", d] => {
+                    let d: u64 = d.parse().unwrap();
+                    let existed = wd.has_channel(d);
+                    let was_ready = ready_before.contains(&d);
+                    let r = wd.node.forget_channel(&chan_id(d));
+                    if r.is_ok() && existed { forgotten_max = forgotten_max.max(d); }
+                    if r.is_ok() && was_ready { forgot_req.insert(d); }
+                    co.tags.insert(format!("forget:{}", if !existed { "absent" } else if was_ready { "ready" } else { "stub" }));
+                    if r.is_ok() { "ok".into() } else { "err".into() }
+                }
+                ["heartbeat"] => {
+                    let deep_any = (1..=NCH).any(|d| wd.chain.len() >= 95 && ready_before.contains(&d));
+                    if deep_any { interesting = true; }
+                    match catch_unwind(AssertUnwindSafe(|| wd.node.get_heartbeat())) { Ok(_) => "ok".into(), Err(e) => format!("panic {}", panic_msg(e)) }
+                }
+                ["restart"] => { wd.restart(); co.tags.insert("restart".into()); "ok".into() }
+                ["add", rest @ ..] => {
+                    let ids: Vec<u64> = rest.iter().map(|tk| super::c14::world::parse_token_id(tk)).collect();
+                    wd.add_block(&ids)
+                }
+                ["addn", k] => {
+                    let mut r = "ok".to_string();
+                    for _ in 0..k.parse::<u64>().unwrap() { r = wd.add_block(&[]); if r != "ok" { break; } }
+                    r
+                }
+                ["remove", rest @ ..] => {
+                    let ids: Vec<u64> = rest.iter().map(|tk| super::c14::world::parse_token_id(tk)).collect();
+                    assert_eq!(wd.chain.last().expect("malformed case: nothing to remove"), &ids, "malformed case: remove of a block that is not the tip");
+                    wd.remove_block()
+                }
+                _ => "bad-op".into(),
+            };
+            if res.starts_with("panic") {
+                dead = true;
+                co.violations.push(Violation { kind: "abort".into(), desc: format!("{} panicked: {}", op, res), at: i });
+                co.out.push("panic".into());
+                continue;
+            }
+            // monitor: ready channels disappear only when allowed
+            let ready_after = wd.ready_set();
+            for d in ready_before.difference(&ready_after) {
+                let allowed = t[0] == "heartbeat" && forgot_req.contains(d) && wd.buried(*d);
+                co.tags.insert(format!("pruned:{}", if allowed { "allowed" } else { "NOT-ALLOWED" }));
+                if !allowed {
+                    co.violations.push(Violation { kind: "ready-channel-discarded-early".into(),
+                        desc: format!("ready channel {} disappeared in `{}` (forget acknowledged: {}, terminal event buried >= {}: {})",
+                                      d, op, forgot_req.contains(d), MIN_DEPTH_SPEC, wd.buried(*d)), at: i });
+                }
+            }
+            if t[0] == "heartbeat" {
+                for d in ready_after.iter() {
+                    if forgot_req.contains(d) && wd.buried(*d) { co.tags.insert("kept-although-prunable".into()); }
+                }
+            }
+            let cls = if res == "ok" { "ok" } else if res.starts_with("err") { "err" } else { "bad-op" };
+            co.out.push(format!("{} {}", cls, wd.digest()));
+        }
+        co.nontrivial = interesting;
+        co
+    }
+}
 
 pub fn groups() -> Vec<Box<dyn Group>> {
-    vec![]
+    vec![Box::new(C15)]
 }
